@@ -91,8 +91,9 @@ def pretty_one(kind1, t_p, t1, tail1, inner, **kw):
 pretty_part_pure = pretty_one
 
 
-def pretty_two(kind1, kind2, t_p, tail1, t2, **kw):
+def pretty_two(kind2, t_p, tail1, t2, kind1=0, **kw):
     return _judge(_doc(kind1, t_p, None, tail1, False, kind2, t2))
 
 
-pretty_two_region = pretty_two
+def pretty_two_region(kind1, kind2, t_p, tail1, t2, **kw):
+    return pretty_two(kind2, t_p, tail1, t2, kind1=kind1)
